@@ -527,7 +527,7 @@ def Lemma(n, timeout=1500):
 def Validate(records, tag, nshards=None, timeout=3000):
   """Shards records by the residue of their key string, runs one TLC per
   shard.  Returns (bad: {id: verdict}, summaries, errors, stats)."""
-  nshards = nshards or max(1, min(common.NCPU, len(records) // 50))
+  nshards = nshards or max(1, min(common.NCPU, len(records) // 2500))
   d = common.BuildDir('trace', tag)
   for f in os.listdir(d):
     os.unlink(os.path.join(d, f))
